@@ -4,7 +4,7 @@ text (tools/mk.py). Serves C01, C02, C03, C04 (per-property generator mix and or
 import random, copy, re
 from vlib import hx
 import gens, cfgcodec, mk
-from dom_expand import B, field, outcome, outcome_cached, outcome_rerendered, line_of
+from dom_expand import B, field, outcome, outcome_cached, outcome_rerendered, outcome_reordered, line_of
 
 MODE = 'expandg'
 
@@ -780,6 +780,9 @@ def run_C13(case, escape=False):
     calls = []
 
     def rec_field(index, placeholder, **kw):
+        if len(calls) % 3 == 0:
+            try: expand('ul>li.x$*2>a', {'options': {'output.field': field}})          # a callback may use the library itself
+            except Exception: pass
         r = field(index, placeholder); calls.append(('field', r, kw.get('offset'), kw.get('line'), kw.get('column'))); return r
 
     def rec_text(text, **kw):
@@ -1155,6 +1158,8 @@ def run(case, prop):
         # result it says of this one too
         o2 = outcome_cached(case['s'], mkcfg(case['c']))
         if o2 != o: viol = viol + ['(with a cache shared by earlier calls) ' + v for v in ORACLES[prop](case, o2)]
+        o5 = outcome_reordered(case['s'], mkcfg(case['c']))
+        if o5 != o: viol = viol + ['(configuration given as an OrderedDict with its keys in the opposite order) ' + v for v in ORACLES[prop](case, o5)]
         o3 = outcome_rerendered(case['s'], mkcfg(case['c']))
         if o3 is not None and o3 != o: viol = viol + ['(the parsed tree rendered a second time, after a rendering in another syntax) ' + v for v in ORACLES[prop](case, o3)]
     tags = {'gen:' + case['g']: 1, 'outcome:' + o[0]: 1, 'syntax:' + case['c'].get('syntax', '-'): 1}
